@@ -327,9 +327,17 @@ impl PointerValue {
             let raw_data = bytes::Bytes::from(raw_data);
 
             let parser = ValueParser::new();
-            let items = raw_data
-                .chunks(deref_size)
-                .enumerate()
+            let (mut bytes_chunks, mut empty_chunks);
+            let raw_items_iter: &mut dyn Iterator<Item = (usize, &[u8])> = if deref_size != 0 {
+                bytes_chunks = raw_data.chunks(deref_size).enumerate();
+                &mut bytes_chunks
+            } else {
+                // if an item type is zst (`chunks(0)` panics)
+                let v: Vec<&[u8]> = vec![&[]; right - left];
+                empty_chunks = v.into_iter().enumerate();
+                &mut empty_chunks
+            };
+            let items = raw_items_iter
                 .filter_map(|(i, chunk)| {
                     let data = ObjectBinaryRepr {
                         raw_data: raw_data.slice_ref(chunk),
